@@ -48,6 +48,12 @@ META = {
                      "poll set and history iterates are discharged for all constraint regions, bounds, noise modes and seeds; the snapped start is feasible or rejected.",
                 note=PROOF_NOTE + " The user constraint is assumed to be a deterministic row-wise function (T5). IterationHistory.record is an assumed contract (bounded-checked). "
                      "The constructor's first x0 check (before snapping) is covered by the bounded panel only."),
+    "C19": dict(level="proof",
+                text="History/result consistency as invariants of the real main loop: each recorded iterate is a logged evaluation carrying the recorded value (deterministic targets), "
+                     "recorded x is the image of recorded u, recorded func_count is monotone and bounded by the final count, the returned x is a recorded iterate; OptimizeResult field "
+                     "equalities and key rejection as postconditions. The pure container semantics (arbitrary record/overwrite sequences, deep copies) are a bounded reference-model test.",
+                note=PROOF_NOTE + " IterationHistory.record is used through an assumed contract whose conformance is bounded-checked (replay/history_model.py); deep-copy is a structural scan "
+                     "plus that bounded test because pyvc models array values functionally (no aliasing). For noisy targets the 'value observed at the recorded point' clause is bounded (panel)."),
     "C04": dict(level="proof",
                 text="For deterministic targets the returned point is a logged evaluation with exactly the logged value and no logged value is lower: an invariant "
                      "(incumbent logged, minimal, fval == yval, fsd == 0) proved for the initial design, every search step, every poll loop iteration and the main loop, "
